@@ -85,6 +85,9 @@ structure ResInv (orc : Oracle) (inst : Instance) (cfg : SMConfig) (s0 : State) 
   live : res.possible ≠ [] → OccursA orc inst cfg s0 res.state ∧ (∀ tr ∈ res.possible, OfferShaped tr)
   /-- while there are offers, nothing is due -/
   quiet : res.possible ≠ [] → Quiet inst res.state
+  /-- the offers held are (a rest of) the offers computed from the state held -/
+  offersFrom : res.possible ≠ [] → ∃ poss, possibleTransitions inst cfg res.state = .ok poss ∧
+    ∀ tr ∈ res.possible, tr ∈ poss
 
 theorem smStep_resInv {cfg : SMConfig} {s0 s : State} (hst : Start orc inst s0) (h : OccursA orc inst cfg s0 s)
     {a : Action} (ha : Admissible a) {fuel : Nat} {r r' : Rng} {res : SMResult} {mic : List State}
@@ -92,7 +95,7 @@ theorem smStep_resInv {cfg : SMConfig} {s0 s : State} (hst : Start orc inst s0) 
     ResInv orc inst cfg s0 res ∧ ∀ σ ∈ mic, StructInv inst σ ∧ SchedInv σ ∧ DurInv inst σ := by
   obtain ⟨hI, hS⟩ := final_inv hst h ha hstep
   refine ⟨⟨hI, hS, fun σ hσ => (occursA_inv hst (OccursA.sub h ha hstep hσ)).2, final_dur hst h ha hstep,
-      fun σ hσ => occursA_dur hst (OccursA.sub h ha hstep hσ), ?_, ?_⟩,
+      fun σ hσ => occursA_dur hst (OccursA.sub h ha hstep hσ), ?_, ?_, ?_⟩,
     fun σ hσ => ⟨(occursA_inv hst (OccursA.micro h ha hstep hσ)).2.1, (occursA_inv hst (OccursA.micro h ha hstep hσ)).2.2,
       occursA_dur hst (OccursA.micro h ha hstep hσ)⟩⟩
   · intro hne
@@ -107,6 +110,11 @@ theorem smStep_resInv {cfg : SMConfig} {s0 s : State} (hst : Start orc inst s0) 
     · exact absurd h1.2.2.2 hne
     · exact absurd h1.2.2.1 hne
     · exact (smStep_clock w nn hI0 hS0 ha hstep).2.2.2.1 h1.1 h1.2.1
+  · intro hne
+    rcases (smStep_spec hstep).2 with h1 | h1 | h1
+    · exact absurd h1.2.2.2 hne
+    · exact absurd h1.2.2.1 hne
+    · exact ⟨res.possible, h1.2.2.2, fun tr htr => htr⟩
 
 theorem admissible_noOp : Admissible noOpAction := ⟨fun _ h => by simp [noOpAction] at h, by simp [noOpAction]⟩
 
@@ -137,12 +145,16 @@ theorem envStep_inv {ec : EnvCfg} {st : RewardStatic} {s0 : State} (hst : Start 
       · simp only at e1 e2 e3 e6
         have hl := hi.live (by rw [hp]; simp)
         refine ⟨⟨by rw [e1]; exact hi.struct, by rw [e1]; exact hi.sched, by rw [e2]; exact hi.subs,
-          by rw [e1]; exact hi.dur, by rw [e2]; exact hi.subsDur, ?_, ?_⟩, ?_⟩
+          by rw [e1]; exact hi.dur, by rw [e2]; exact hi.subsDur, ?_, ?_, ?_⟩, ?_⟩
         · intro _
           rw [e1, e3]
           exact ⟨hl.1, fun tr htr => hl.2 tr (by rw [hp]; exact List.mem_cons_of_mem _ htr)⟩
         · intro _
           rw [e1]; exact hi.quiet (by rw [hp]; simp)
+        · intro _
+          obtain ⟨poss, hposs, hsub⟩ := hi.offersFrom (by rw [hp]; simp)
+          rw [e1, e3]
+          exact ⟨poss, hposs, fun tr htr => hsub tr (by rw [hp]; exact List.mem_cons_of_mem _ htr)⟩
         · rw [e6]; intro σ hσ; cases hσ
       · have hne : e.res.possible ≠ [] := by
           rcases hk with ⟨_, _, _, h⟩ | ⟨_, _, _, h⟩
